@@ -18,6 +18,8 @@ CONSTANTS
   BAbort = 1
   BSendFail = 0
   Depth = 20
+  Locks = FALSE
+  HandlerReadsState = FALSE
 INIT Init
 NEXT Next
 INVARIANT TypeOK
